@@ -269,8 +269,8 @@ def translate(path, expected_ctors):
         raise Untranslatable(f"the lattice elements of the source {got} are not the constructors of Model.Lattice.zone {expected_ctors}")
     for n in zs:
         for m in classes[n].methods:
-            if m not in ("is_subseteq", "join", "meet", "print_impl", "__hash__", "__eq__", "is_equal", "is_structurally_equal") :
-                raise Untranslatable(f"method {n}.{m} is outside the translated fragment")
+            # other methods (printing, helpers) carry no lattice behaviour unless a translated body calls them - and a call to
+            # anything but is_subseteq / super().join inside a translated body is untranslatable
             if m in ("meet", "__eq__", "__hash__", "is_equal", "is_structurally_equal"):
                 raise Untranslatable(f"{n}.{m} overrides behaviour the model takes from the dataclass / kirin mixins")
     out = ["(* GENERATED on every run from src/bloqade/shuttle/analysis/zone/lattice.py by harness/gen/lattice_translate.py *)",
